@@ -1,10 +1,10 @@
 SPECIFICATION Spec
 CONSTANTS
   BackSeek = 3
-  MaxMatch = 4
+  MaxMatch = 1
   PrefixFix = TRUE
   PlaintiffFix = TRUE
-  TokenFloor = TRUE
-  MaxWords = 5
+  TokenFloor = FALSE
+  MaxWords = 3
 INVARIANT Laws
 CHECK_DEADLOCK FALSE
